@@ -18,9 +18,9 @@ func (s *IdealCoefficientSatisfactionLevels) Spec_Initialize(dmp *model.Decision
 	s.manager.Validate(s)
 	s.criteria = dmp.Criteria
 	s.criteriaValuesRanges = make([]utils.ValueRange, len(dmp.Criteria))
-	alternatives := dmp.AllAlternatives()
+	alternatives := dmp.Spec_AllAlternatives()
 	for i, c := range s.criteria {
-		s.criteriaValuesRanges[i] = *model.CriteriaValuesRange(&alternatives, &c)
+		s.criteriaValuesRanges[i] = *model.Spec_CriteriaValuesRange(&alternatives, &c)
 	}
 	s.currentValue = s.manager.InitialValue(s)
 }
@@ -33,8 +33,8 @@ func (s *IdealCoefficientSatisfactionLevels) Spec_Next() model.Weights {
 	weights := make(model.Weights, len(s.criteria))
 	for i, c := range s.criteria {
 		valRange := s.criteriaValuesRanges[i]
-		delta := valRange.Diff() * s.currentValue
-		if c.Multiplier() > 0 {
+		delta := valRange.Spec_Diff() * s.currentValue
+		if c.Spec_Multiplier() > 0 {
 			weights[c.Id] = valRange.Min + delta
 		} else {
 			weights[c.Id] = valRange.Max - delta
